@@ -65,6 +65,7 @@ type Result struct {
 	Samples    []any          `json:"samples"`
 	Violations []Violation    `json:"violations"`
 	Notes      []string       `json:"notes"`
+	Extra      map[string]any `json:"extra"`
 	path       string
 }
 
@@ -73,6 +74,14 @@ func NewResult(t testing.TB, name string) *Result {
 }
 
 func (r *Result) Add(k string, n int) { r.mu.Lock(); r.Counters[k] += n; r.mu.Unlock() }
+func (r *Result) SetExtra(k string, v any) {
+	r.mu.Lock()
+	if r.Extra == nil {
+		r.Extra = map[string]any{}
+	}
+	r.Extra[k] = v
+	r.mu.Unlock()
+}
 func (r *Result) Set(k string, n int) { r.mu.Lock(); r.Counters[k] = n; r.mu.Unlock() }
 func (r *Result) Sample(v any) {
 	r.mu.Lock()
